@@ -394,6 +394,8 @@ theorem TwStatic.attrs (hS : TwStatic X Xu h0) (c : Nat) :
     (Xu.cd c).attrs = (X.cd c).attrs := by rw [hS.cd c]
 theorem TwStatic.dncu (hS : TwStatic X Xu h0) (c : Nat) :
     (Xu.cd c).dnc = (X.cd c).dnc := by rw [hS.cd c]
+theorem TwStatic.dncU (hS : TwStatic X Xu h0) : NoClassDnc Xu := fun c => by
+  rw [hS.dncu c]; exact hS.dnc c
 theorem TwStatic.postCopy (hS : TwStatic X Xu h0) (c : Nat) :
     (Xu.cd c).postCopy = (X.cd c).postCopy := by rw [hS.cd c]
 theorem TwStatic.base (hS : TwStatic X Xu h0) (c : Nat) :
@@ -1927,7 +1929,7 @@ theorem protectIfUnchanged_sim (hC : TwCtx X Xu h0) (d : AttrDecl) (self : Ref) 
 theorem updateAttr_sim (hC : TwCtx X Xu h0) (self : Ref) (a : Nat) (v : Ref)
     (kw : List (Nat × Ref)) :
     Tw X.T h0 [] P (updateAttr X self a v kw false) (updateAttr Xu self a v kw false) TwId := by
-  unfold updateAttr
+  rw [updateAttr_eq_core hC.st.dnc, updateAttr_eq_core hC.st.dncU]; unfold updateAttrCore
   refine (getInst_sim self).bind (fun p pu hp => ?_)
   obtain ⟨i, c, fs, t, tu, rfl, rfl, rfl, hflag⟩ := hp
   simp only [hC.st.attr?, hC.st.dncu]
@@ -1947,7 +1949,7 @@ theorem transformAttr_sim (hC : TwCtx X Xu h0) (self : Ref) (a : Nat) (f : Optio
     (kwf : List (Nat × Cb)) :
     Tw X.T h0 [] P (transformAttr X self a f kwf false) (transformAttr Xu self a f kwf false)
       TwId := by
-  unfold transformAttr
+  rw [transformAttr_eq_core hC.st.dnc, transformAttr_eq_core hC.st.dncU]; unfold transformAttrCore
   refine (getInst_sim self).bind (fun p pu hp => ?_)
   obtain ⟨i, c, fs, t, tu, rfl, rfl, rfl, hflag⟩ := hp
   simp only [hC.st.attr?, hC.st.dncu]
